@@ -202,6 +202,9 @@ def variants(ctx, rule="R05.7"):
 
 
 def run(ctx):
+    from ..small import none_default_rule
+
+    none_default_rule(ctx, "R05.8", ["krige/"], 10)
     layout(ctx)
     symmetric(ctx)
     covariance_family(ctx)
